@@ -72,6 +72,8 @@ package otel
 //@   props C20
 //@   requires o != nil && ctx != nil && ObsInv(o)
 //@   ensures [C20.otel.publish.start] cnt(startCall) == 1 && lastarg(startCall, 1, Iface) == ctx && result == lastresi(startCall, 0, Iface) && cnt(endCall) == 0
+// refinement: what the eventbus.Observability interface contract promises for this hook
+//@   ensures [C20.otel.publish.refines] {C20,C08} result != nil && descends(result, ctx)
 //@   ensures [C20.otel.publish.count] cnt(addCall) == 1 && lastarg(addCall, 0, Iface) == o.publishCounter && lastarg(addCall, 2) == 1
 //@ func (*Observability).OnPublishComplete
 //@   props C20
@@ -83,6 +85,8 @@ package otel
 //@   props C20
 //@   requires o != nil && ctx != nil && ObsInv(o)
 //@   ensures [C20.otel.handler.start] {C20,C08} cnt(startCall) == 1 && descends(lastarg(startCall, 1, Iface), ctx) && result == lastresi(startCall, 0, Iface) && cnt(endCall) == 0
+// refinement: what the eventbus.Observability interface contract promises for this hook
+//@   ensures [C20.otel.handler.refines] {C20,C08} result != nil && descends(result, ctx)
 //@   ensures [C20.otel.handler.count] cnt(addCall) == 1 && lastarg(addCall, 0, Iface) == o.handlerCounter && lastarg(addCall, 2) == 1
 //@ func (*Observability).OnHandlerComplete
 //@   props C20
@@ -97,6 +101,8 @@ package otel
 //@   props C20
 //@   requires o != nil && ctx != nil && ObsInv(o)
 //@   ensures [C20.otel.persist.start] cnt(startCall) == 1 && descends(lastarg(startCall, 1, Iface), ctx) && result == lastresi(startCall, 0, Iface) && cnt(endCall) == 0
+// refinement: what the eventbus.Observability interface contract promises for this hook
+//@   ensures [C20.otel.persist.refines] {C20} result != nil && descends(result, ctx)
 //@   ensures [C20.otel.persist.count] cnt(addCall) == 1 && lastarg(addCall, 0, Iface) == o.persistCounter && lastarg(addCall, 2) == 1
 //@ func (*Observability).OnPersistComplete
 //@   props C20
